@@ -21,7 +21,10 @@ PROPS = {
                  'models of File / BorrowedFd / HandleData / InodeData / CString / ManuallyDrop (identity) in vx/units/ptsize.py'],
     ),
     'C05': dict(
-        vx_units=['ptops', 'ptstatx', 'fhandle'], kx=[], rx=['pt'],
+        vx_units=['ptops', 'ptstatx', 'fhandle', 'ptlookup'], kx=[], rx=['pt'],
+        # the host object a LOOKUP (and the entry reply of mkdir / mknod / symlink / link / create) is about: openat(parent's descriptor, exactly the client's name), `..` at
+        # the export root being the root itself and nothing else being rewritten - the [open] capability of do_lookup in unit ptlookup ([C08.lookup.root_parent])
+        alias=[r'^ptlookup\.do_lookup\.open$'],
         design_ref='DESIGN.md A.4 / A.6 (D18, D19)',
         not_covered=[
             'the kernel\'s semantics of every system call (what the call yields) and the equality of the exported tree with the tree produced by applying the same calls directly, over histories: only WHICH call is made, on which descriptor, with which arguments, how often, and what is done with its result is decided (bounded differential check: RX group pt)',
@@ -35,15 +38,14 @@ PROPS = {
                  'the serving thread starts as root (precondition of every handler); rules R50-R56 (scoped_cred! expanded, libc::syscall(SYS_x) -> sys::x, scope-exit drops of the credential guards made explicit, pointer arguments named by their owner)'],
     ),
     'C06': dict(
-        vx_units=['vfs', 'pt', 'inodes', 'ptops'], kx=[], rx=['pt'],
+        vx_units=['vfs', 'pt', 'inodes', 'ptops', 'ptlookup'], kx=[], rx=['pt'],
         # the `..`-at-the-export-root rewrite relies on the export root being known as inode 1 only: a root that can be forgotten can be re-registered under
         # another number and then be walked out of (seed C06-c)
-        alias=[r'^C08\.forget\.root'],
+        alias=[r'^C08\.forget\.root', r'^ptlookup\.do_lookup\.open$'],      # + `..` at the export root resolves to the root, and ONLY `..` does (the [open] capability of do_lookup, unit ptlookup)
         design_ref='DESIGN.md section 5, C06',
         not_covered=[
             'symlink / hard-link / rename-of-directory-in-use semantics: kernel behaviour behind libc calls (what is proved is which FLAGS reach openat and which inode TYPES are re-opened, with openat / InodeData::open_file as capability-guarded externals)',
             'the name checks at the call sites inside the passthrough mutators ARE covered since unit ptops: every mkdirat / mknodat / symlinkat / linkat / unlinkat / renameat2 / creating openat needs `gated(name)`, which only validate_path_component returning Ok provides ([C06.gate.*]); lookup\'s own slash check is in unit pt; the order "before any backend is touched" holds because the gated call is the first host call that names the object',
-            'PassthroughFs::do_lookup ".." -> "." rewrite at the export root',
         ],
         trusted=['T3 CStr modelled as a NUL-free byte sequence (axiom_cstr_no_nul); <[u8]>::contains by assume_specification; byte-string constants CURRENT_DIR_CSTR/PARENT_DIR_CSTR by R11',
                  'T8 backends behind the VFS are arbitrary (uninterpreted results) and are reached only through capability-guarded calls'],
